@@ -51,6 +51,19 @@ func checkVar(c VarCase, o *vt.Obs) error {
 			}
 		}
 	}
+	// unsigned arguments of every magnitude ("supports ints/uints")
+	if s := io.GetVarSize(n); s != len(got) {
+		if err := vd.fail("getvarsize-wide-unsigned", "io.GetVarSize(uint64(%d)) = %d, WriteVarUint writes %d bytes", n, s, len(got)); err != nil {
+			return err
+		}
+	}
+	if n <= 1<<63-1 {
+		if s := io.GetVarSize(int64(n)); s != len(got) {
+			if err := vd.fail("getvarsize-wide-unsigned", "io.GetVarSize(int64(%d)) = %d, WriteVarUint writes %d bytes", n, s, len(got)); err != nil {
+				return err
+			}
+		}
+	}
 	// Byte strings, strings and hash lists of that length (bounded so that the case stays cheap).
 	if n <= 0x10003 {
 		b := make([]byte, n)
